@@ -389,11 +389,12 @@ func staticGuard(r *core.Run) {
 func Main(r *core.Run) {
 	quick := r.Quick()
 	ops := Ops()
-	r.Rule(fmt.Sprintf("%d operations on shared objects (finished basicnode / bindnode typed+repr / generated typed+repr / reader-backed bytes nodes, a compiled selector, traversal.Config with fields set and unset, a TypeSystem, prototypes of each engine, the default codec registry, link systems over pre-filled read-only memstore and cidlink.Memory stores, never-initialised shared stores; bindings with explicit and inferred schemas): (a) every unordered pair incl. self-pairs under the cooperative scheduler, scheduling points inserted by the overlay rewriter at the entry of every method of schema.TypeSystem and multicodec.Registry, traversal Config/Progress init, the lazy initialisers of memstore and cidlink.Memory and bindnode's inferSchema — all schedules up to the preemption bound, each thread's result compared with its result alone; (b) each operation alone: deep fingerprints (unsafe reflection incl. unexported fields) of every shared object and of the package-level mutable state before/after; (b2) every selector of ≤5 (thorough: ≤6) clauses compiled once and used for walks and identity transforms over a set of graphs deep enough to exhaust its limits: fingerprint of the compiled selector after every use, visits of a repeated use; (c) separate free-running -race binary: every unordered pair with 2 and 8 goroutines × repetitions, one subprocess each. Non-trivial = schedules of pairs that reach a hook; distinct by schedule.", len(ops)))
+	r.Rule(fmt.Sprintf("%d operations on shared objects (finished basicnode / bindnode typed+repr / generated typed+repr / reader-backed bytes nodes, a compiled selector, traversal.Config with fields set and unset, a TypeSystem, prototypes of each engine, the default codec registry, link systems over pre-filled read-only memstore and cidlink.Memory stores, never-initialised shared stores; bindings with explicit and inferred schemas): (a) every unordered pair incl. self-pairs under the cooperative scheduler, scheduling points inserted by the overlay rewriter at the entry of every method of schema.TypeSystem and multicodec.Registry, traversal Config/Progress init, the lazy initialisers of memstore and cidlink.Memory and bindnode's inferSchema — all schedules up to the preemption bound, each thread's result compared with its result alone; (b) each operation alone: deep fingerprints (unsafe reflection incl. unexported fields) of every shared object and of the package-level mutable state before/after; (b2) every selector of ≤5 (thorough: ≤6) clauses compiled once and used for walks and identity transforms over a set of graphs deep enough to exhaust its limits: fingerprint of the compiled selector after every use, visits of a repeated use; (b3) every root type of the schema families × its values (reflection binding), and the generic nodes over every tree ≤3 nodes: the finished node is read in nine ways with a fingerprint after each; (c) separate free-running -race binary: every unordered pair with 2 and 8 goroutines × repetitions, one subprocess each. Non-trivial = schedules of pairs that reach a hook; distinct by schedule.", len(ops)))
 	r.Assume("interleavings are explored at hook granularity, not at every memory access; unsynchronised accesses outside the hooks are found by (b) (exhaustive over the alphabet, persistent writes only) and (c) (happens-before detector on free runs); memory-model effects are not modelled")
 	staticGuard(r)
 	footprint(r)
 	selectorFootprints(r, quick)
+	nodeFootprints(r, quick)
 	interleavings(r, quick)
 	racePass(r, quick)
 }
@@ -404,6 +405,10 @@ func Replay(r *core.Run, mode string, raw json.RawMessage) {
 	switch mode {
 	case "footprint":
 		footprint(r)
+	case "node":
+		var nc NodeCase
+		json.Unmarshal(raw, &nc)
+		replayNode(r, nc)
 	case "selector":
 		var sc SelCase
 		json.Unmarshal(raw, &sc)
